@@ -1,8 +1,35 @@
-"""C05: the type -> Python class table used by RelationSchema.validate (orso/types.py ORSO_TO_PYTHON_MAP)
-and CPython's subclass relation among the value classes, re-measured with issubclass on every run."""
+"""C05 extraction.
+
+`Generated/Validate.lean` — the type -> Python class table used by RelationSchema.validate
+(orso/types.py ORSO_TO_PYTHON_MAP) and CPython's subclass relation among the value classes, re-measured
+with issubclass on every run.
+
+`Generated/ValidateFlow.lean` — the *control flow* of `RelationSchema.validate` and `DataFrame.append`,
+translated statement by statement from the working tree on every run:
+
+* `columnRule`   the body of the `for column in self.columns` loop as a decision over five Boolean atoms
+                 (key present, value is None, column nullable, column typed, isinstance holds) returning the
+                 error-dict keys the column is appended to (if/elif/else, early `continue`, sequences);
+* `top`          the top level of `validate` as a decision over (data is not a mapping, excess keys exist,
+                 errors were collected) returning how the function exits — the order of the checks and which
+                 check raises at once;
+* `excessAgainst` what the keys are compared with (column names, or names and aliases);
+* `appendSteps`  the statements of `DataFrame.append` in source order, classified
+                 (validate / build / size / store / count / cursor);
+* `schemaReads`, `columnReads`, `hiddenState`  everything `validate` reads from `self` and from a column,
+                 resolved through properties and helper methods, and every source of state that is not a
+                 declared dataclass field (cached properties, memoising decorators, ad-hoc instance
+                 attributes, writes to `self` or to module globals).
+
+Every item degrades to its pinned text when the statement shape is not recognised; the generated text is built
+only from a closed vocabulary, so it always compiles.
+"""
 import ast
+import collections
 import datetime
 import decimal
+
+import numpy
 
 from ..extract import HEADER, Src, lean_list, lean_str
 
@@ -10,9 +37,378 @@ PINNED = [["BOOLEAN", "bool"], ["BLOB", "bytes"], ["DATE", "date"], ["TIMESTAMP"
           ["INTERVAL", "timedelta"], ["STRUCT", "dict"], ["DECIMAL", "Decimal"], ["DOUBLE", "float"], ["INTEGER", "int"],
           ["ARRAY", "list"], ["VARCHAR", "str"], ["JSONB", "bytes"], ["NULL", "None"]]
 
+
+# subclasses of the value classes, defined here so that the extractor (issubclass table) and the harness
+# (value pool) talk about the same objects
+class MyInt(int):
+    pass
+
+
+class MyStr(str):
+    pass
+
+
+class MyDateTime(datetime.datetime):
+    pass
+
+
+class MyDict(dict):
+    pass
+
+
 CLASSES = {"bool": bool, "int": int, "float": float, "str": str, "bytes": bytes, "date": datetime.date,
            "datetime": datetime.datetime, "time": datetime.time, "timedelta": datetime.timedelta, "dict": dict,
-           "Decimal": decimal.Decimal, "list": list, "tuple": tuple, "set": set}
+           "Decimal": decimal.Decimal, "list": list, "tuple": tuple, "set": set,
+           # unusual but legal values (round 2)
+           "bytearray": bytearray, "frozenset": frozenset, "np.int64": numpy.int64, "np.float64": numpy.float64,
+           "np.bool": numpy.bool_, "np.str": numpy.str_, "np.ndarray": numpy.ndarray,
+           "OrderedDict": collections.OrderedDict, "defaultdict": collections.defaultdict,
+           "MyInt": MyInt, "MyStr": MyStr, "MyDateTime": MyDateTime, "MyDict": MyDict}
+
+KEY_MISSING = "Column in Schema Not Found in Record"
+KEY_NULL = "Column not Nullable"
+KEY_WRONG = "Incorrect Type"
+
+PIN_RULE = ("(if (!present) then [%s] else (if isNone then (if (!nullable) then [%s] else []) else "
+            "(if (typed && (!inst)) then [%s] else [])))" % (lean_str(KEY_MISSING), lean_str(KEY_NULL), lean_str(KEY_WRONG)))
+PIN_TOP = "(if notMapping then Exit.typeError else (if excess then Exit.excess else (if errors then Exit.invalid else Exit.ok)))"
+PIN_STEPS = ["validate", "build", "size", "store", "count", "cursor"]
+STEP_NAMES = {"validate", "build", "size", "store", "count", "cursor", "materialize", "coerce"}
+
+
+class Unrecognised(Exception):
+    pass
+
+
+def _cls(tree, name):
+    for n in tree.body:
+        if isinstance(n, ast.ClassDef) and n.name == name:
+            return n
+    raise Unrecognised("class %s" % name)
+
+
+def _method(cls, name):
+    for n in cls.body:
+        if isinstance(n, ast.FunctionDef) and n.name == name:
+            return n
+    raise Unrecognised("method %s" % name)
+
+
+def _is_docstring(st):
+    return isinstance(st, ast.Expr) and isinstance(st.value, ast.Constant) and isinstance(st.value.value, str)
+
+
+# ----------------------------------------------------------------------------- validate: the loop body
+
+
+class LoopTranslator:
+    """`for <col> in self.columns:` body -> Lean `List String` over the atoms present/isNone/nullable/typed/inst."""
+
+    def __init__(self, col, data):
+        self.col, self.data = col, data
+        self.value_names = set()
+        self.keys = []
+
+    def lookup_texts(self):
+        base = "%s[%s.name]" % (self.data, self.col)
+        return {base} | set(self.value_names)
+
+    def cond(self, n):
+        t = ast.unparse(n)
+        col, data = self.col, self.data
+        if isinstance(n, ast.UnaryOp) and isinstance(n.op, ast.Not):
+            return "(!%s)" % self.cond(n.operand)
+        if isinstance(n, ast.BoolOp):
+            j = " && " if isinstance(n.op, ast.And) else " || "
+            return "(" + j.join(self.cond(v) for v in n.values) + ")"
+        if t == "%s.name in %s" % (col, data):
+            return "present"
+        if t == "%s.name not in %s" % (col, data):
+            return "(!present)"
+        if t == "%s.nullable" % col:
+            return "nullable"
+        if t in ("%s.type != OrsoTypes._MISSING_TYPE" % col, "%s.type is not OrsoTypes._MISSING_TYPE" % col,
+                 "OrsoTypes._MISSING_TYPE != %s.type" % col):
+            return "typed"
+        if t in ("%s.type == OrsoTypes._MISSING_TYPE" % col, "%s.type is OrsoTypes._MISSING_TYPE" % col,
+                 "OrsoTypes._MISSING_TYPE == %s.type" % col):
+            return "(!typed)"
+        for v in self.lookup_texts():
+            if t == "%s is None" % v:
+                return "isNone"
+            if t == "%s is not None" % v:
+                return "(!isNone)"
+            if t == "isinstance(%s, ORSO_TO_PYTHON_MAP[%s.type])" % (v, col):
+                return "inst"
+        raise Unrecognised("condition %s" % t[:60])
+
+    def block(self, stmts):
+        if not stmts:
+            return "[]"
+        st, rest = stmts[0], list(stmts[1:])
+        if isinstance(st, ast.Pass) or _is_docstring(st):
+            return self.block(rest)
+        if isinstance(st, ast.Continue):
+            return "[]"
+        if isinstance(st, ast.Assign) and len(st.targets) == 1 and isinstance(st.targets[0], ast.Name) \
+                and ast.unparse(st.value) == "%s[%s.name]" % (self.data, self.col):
+            self.value_names.add(st.targets[0].id)
+            return self.block(rest)
+        if isinstance(st, ast.Expr) and isinstance(st.value, ast.Call):
+            c = st.value
+            f = c.func
+            if isinstance(f, ast.Attribute) and f.attr == "append" and isinstance(f.value, ast.Subscript) \
+                    and isinstance(f.value.value, ast.Name) and f.value.value.id == "errors" \
+                    and isinstance(f.value.slice, ast.Constant) and isinstance(f.value.slice.value, str) and len(c.args) == 1:
+                # what is appended must name the column: `column.name` or a tuple starting with it
+                a = c.args[0]
+                first = a.elts[0] if isinstance(a, ast.Tuple) and a.elts else a
+                if ast.unparse(first) != "%s.name" % self.col:
+                    raise Unrecognised("appended value %s" % ast.unparse(a)[:40])
+                key = f.value.slice.value
+                self.keys.append(key)
+                tail = self.block(rest)
+                return "(%s :: %s)" % (lean_str(key), tail)
+        if isinstance(st, ast.If):
+            return "(if %s then %s else %s)" % (self.cond(st.test), self.block(list(st.body) + rest),
+                                                 self.block(list(st.orelse) + rest))
+        raise Unrecognised("statement %s" % ast.unparse(st)[:60])
+
+
+# ----------------------------------------------------------------------------- validate: the top level
+
+
+def translate_top(fn):
+    """Returns (lean text of `top`, excessAgainst, loop node)."""
+    args = [a.arg for a in fn.args.args]
+    if len(args) != 2 or args[0] != "self":
+        raise Unrecognised("signature")
+    data = args[1]
+    state = {"excess_name": None, "against": None, "loop": None, "errors_init": False}
+
+    def excess_expr(v):
+        # set(data.keys()) - set(<col>.name for <col> in self.columns)   |  set(data) - set(self.column_names) | ... all_column_names()
+        if not (isinstance(v, ast.BinOp) and isinstance(v.op, ast.Sub)):
+            raise Unrecognised("excess expression %s" % ast.unparse(v)[:60])
+        left = ast.unparse(v.left)
+        if left not in ("set(%s.keys())" % data, "set(%s)" % data, "%s.keys()" % data):
+            raise Unrecognised("excess left %s" % left[:40])
+        r = v.right
+        if isinstance(r, ast.Call) and isinstance(r.func, ast.Name) and r.func.id in ("set", "frozenset") and len(r.args) == 1:
+            r = r.args[0]
+        if isinstance(r, (ast.GeneratorExp, ast.ListComp, ast.SetComp)) and len(r.generators) == 1 \
+                and ast.unparse(r.generators[0].iter) == "self.columns" and not r.generators[0].ifs \
+                and isinstance(r.generators[0].target, ast.Name) \
+                and ast.unparse(r.elt) == "%s.name" % r.generators[0].target.id:
+            return "name"
+        if ast.unparse(r) == "self.column_names":
+            return "name"
+        if ast.unparse(r) == "self.all_column_names()":
+            return "all_names"
+        raise Unrecognised("excess right %s" % ast.unparse(r)[:40])
+
+    def atom(n):
+        t = ast.unparse(n)
+        if isinstance(n, ast.UnaryOp) and isinstance(n.op, ast.Not):
+            return "(!%s)" % atom(n.operand)
+        if t == "isinstance(%s, MutableMapping)" % data:
+            return "(!notMapping)"
+        if state["excess_name"] and t in (state["excess_name"], "len(%s) > 0" % state["excess_name"]):
+            return "excess"
+        if t in ("errors", "len(errors) > 0"):
+            if state["loop"] is None or not state["errors_init"]:
+                raise Unrecognised("errors tested before the loop")
+            return "errors"
+        raise Unrecognised("top-level condition %s" % t[:60])
+
+    def exit_of(st):
+        if isinstance(st, ast.Return):
+            return "Exit.ok" if (isinstance(st.value, ast.Constant) and st.value.value is True) else "Exit.other"
+        if isinstance(st, ast.Raise) and isinstance(st.exc, ast.Call) and isinstance(st.exc.func, ast.Name):
+            nm = st.exc.func.id
+            if nm == "TypeError":
+                return "Exit.typeError"
+            if nm == "ExcessColumnsInDataError":
+                kw = {k.arg: ast.unparse(k.value) for k in st.exc.keywords}
+                if kw.get("columns") != state["excess_name"] and [ast.unparse(a) for a in st.exc.args] != [state["excess_name"]]:
+                    raise Unrecognised("ExcessColumnsInDataError argument")
+                return "Exit.excess"
+            if nm == "DataValidationError":
+                kw = {k.arg: ast.unparse(k.value) for k in st.exc.keywords}
+                if kw.get("errors") != "errors" and [ast.unparse(a) for a in st.exc.args] != ["errors"]:
+                    raise Unrecognised("DataValidationError argument")
+                return "Exit.invalid"
+        return None
+
+    def block(stmts):
+        if not stmts:
+            return "Exit.other"
+        st, rest = stmts[0], list(stmts[1:])
+        if isinstance(st, ast.Pass) or _is_docstring(st):
+            return block(rest)
+        e = exit_of(st)
+        if e is not None:
+            return e
+        if isinstance(st, ast.Assign) and len(st.targets) == 1 and isinstance(st.targets[0], ast.Name):
+            nm = st.targets[0].id
+            if ast.unparse(st.value) in ("defaultdict(list)", "collections.defaultdict(list)") and nm == "errors":
+                if state["loop"] is not None:
+                    raise Unrecognised("errors re-initialised after the loop")
+                state["errors_init"] = True
+                return block(rest)
+            if state["excess_name"] is None:
+                state["against"] = excess_expr(st.value)
+                state["excess_name"] = nm
+                return block(rest)
+        if isinstance(st, ast.For) and ast.unparse(st.iter) == "self.columns" and isinstance(st.target, ast.Name) and not st.orelse:
+            if state["loop"] is not None:
+                raise Unrecognised("two loops")
+            state["loop"] = st
+            return block(rest)
+        if isinstance(st, ast.If):
+            return "(if %s then %s else %s)" % (atom(st.test), block(list(st.body) + rest), block(list(st.orelse) + rest))
+        raise Unrecognised("top-level statement %s" % ast.unparse(st)[:60])
+
+    text = block(list(fn.body))
+    if state["loop"] is None or state["against"] is None:
+        raise Unrecognised("loop or excess check not found")
+    return text, state["against"], state["loop"], data
+
+
+# ----------------------------------------------------------------------------- what validate reads
+
+
+STATELESS_DECORATORS = {"property", "staticmethod", "classmethod"}
+
+
+def _fields(cls):
+    return [n.target.id for n in cls.body if isinstance(n, ast.AnnAssign) and isinstance(n.target, ast.Name)]
+
+
+def reads_of(tree, cls_name, fn_name, col_cls_name):
+    """(schema fields read, column fields read, hidden state) of a method, through properties and helpers."""
+    cls, col_cls = _cls(tree, cls_name), _cls(tree, col_cls_name)
+    s_fields, c_fields = set(_fields(cls)), set(_fields(col_cls))
+    members = {n.name: n for n in cls.body if isinstance(n, ast.FunctionDef)}
+    col_members = {n.name: n for n in col_cls.body if isinstance(n, ast.FunctionDef)}
+    s_reads, c_reads, hidden = set(), set(), set()
+    seen = set()
+
+    def decorators(fn):
+        out = []
+        for d in fn.decorator_list:
+            d = d.func if isinstance(d, ast.Call) else d
+            out.append(d.attr if isinstance(d, ast.Attribute) else getattr(d, "id", "?"))
+        return out
+
+    def locals_of(fn):
+        names = {a.arg for a in fn.args.args + fn.args.kwonlyargs}
+        for n in ast.walk(fn):
+            if isinstance(n, ast.Name) and isinstance(n.ctx, ast.Store):
+                names.add(n.id)
+        return names
+
+    def visit(fn, owner, self_name, col_vars):
+        key = (owner, fn.name)
+        if key in seen:
+            return
+        seen.add(key)
+        for d in decorators(fn):
+            if d not in STATELESS_DECORATORS:
+                hidden.add("%s.%s is decorated with %s" % (owner, fn.name, d))
+        loc = locals_of(fn)
+        col_vars = set(col_vars)
+        for n in ast.walk(fn):
+            gens = []
+            if isinstance(n, ast.For):
+                gens = [(n.target, n.iter)]
+            elif isinstance(n, (ast.GeneratorExp, ast.ListComp, ast.SetComp, ast.DictComp)):
+                gens = [(g.target, g.iter) for g in n.generators]
+            for tgt, it in gens:
+                if isinstance(tgt, ast.Name) and owner == cls_name and ast.unparse(it) in ("%s.columns" % self_name, "%s.columns[:]" % self_name):
+                    col_vars.add(tgt.id)
+                if isinstance(tgt, ast.Tuple) and owner == cls_name and ast.unparse(it) == "enumerate(%s.columns)" % self_name \
+                        and len(tgt.elts) == 2 and isinstance(tgt.elts[1], ast.Name):
+                    col_vars.add(tgt.elts[1].id)
+        for n in ast.walk(fn):
+            if isinstance(n, (ast.Global, ast.Nonlocal)):
+                hidden.add("%s.%s declares %s" % (owner, fn.name, ast.unparse(n)))
+            if isinstance(n, (ast.Attribute, ast.Subscript)) and isinstance(n.ctx, (ast.Store, ast.Del)):
+                base = n
+                while isinstance(base, (ast.Attribute, ast.Subscript)):
+                    base = base.value
+                if isinstance(base, ast.Name) and (base.id == self_name or base.id in col_vars or base.id not in loc):
+                    hidden.add("%s.%s writes %s" % (owner, fn.name, ast.unparse(n)[:40]))
+            if isinstance(n, ast.Attribute) and isinstance(n.ctx, ast.Load) and isinstance(n.value, ast.Name):
+                if n.value.id == self_name:
+                    fields, mem, reads = (s_fields, members, s_reads) if owner == cls_name else (c_fields, col_members, c_reads)
+                    if n.attr in fields:
+                        reads.add(n.attr)
+                    elif n.attr in mem:
+                        visit(mem[n.attr], owner, mem[n.attr].args.args[0].arg if mem[n.attr].args.args else "self", ())
+                    else:
+                        hidden.add("%s.%s reads %s.%s, which is not a declared field" % (owner, fn.name, self_name, n.attr))
+                elif n.value.id in col_vars:
+                    if n.attr in c_fields:
+                        c_reads.add(n.attr)
+                    elif n.attr in col_members:
+                        m = col_members[n.attr]
+                        visit(m, col_cls_name, m.args.args[0].arg if m.args.args else "self", ())
+                    else:
+                        hidden.add("%s.%s reads column.%s, which is not a declared field" % (owner, fn.name, n.attr))
+
+    fn = members.get(fn_name)
+    if fn is None:
+        raise Unrecognised("method %s" % fn_name)
+    visit(fn, cls_name, "self", ())
+    return sorted(s_reads), sorted(c_reads), sorted(hidden), sorted(s_fields), sorted(c_fields)
+
+
+# ----------------------------------------------------------------------------- DataFrame.append
+
+
+def append_steps(fn):
+    args = [a.arg for a in fn.args.args]
+    if len(args) != 2:
+        raise Unrecognised("signature")
+    out = []
+
+    def classify(st):
+        tags = []
+        for n in ast.walk(st):
+            if isinstance(n, ast.Call) and isinstance(n.func, ast.Attribute):
+                t = ast.unparse(n.func)
+                if n.func.attr == "validate":
+                    tags.append((n.lineno, n.col_offset, "validate"))
+                elif t == "self._row_factory":
+                    tags.append((n.lineno, n.col_offset, "build"))
+                elif n.func.attr == "nbytes":
+                    tags.append((n.lineno, n.col_offset, "size"))
+                elif t == "self._rows.append":
+                    tags.append((n.lineno, n.col_offset, "store"))
+                elif t == "self.materialize":
+                    tags.append((n.lineno, n.col_offset, "materialize"))
+            if isinstance(n, ast.Call) and ast.unparse(n.func) == "dict" and len(n.args) == 1 and ast.unparse(n.args[0]) == args[1]:
+                tags.append((n.lineno, n.col_offset, "coerce"))
+            if isinstance(n, ast.AugAssign) and ast.unparse(n.target) == "self._nbytes":
+                # `self._nbytes += new_row.nbytes()` sizes, then counts
+                tags.append((n.end_lineno, n.end_col_offset, "count"))
+            if isinstance(n, ast.Assign) and [ast.unparse(t) for t in n.targets] == ["self._cursor"]:
+                tags.append((n.lineno, n.col_offset, "cursor"))
+        if not tags:
+            raise Unrecognised("statement %s" % ast.unparse(st)[:60])
+        return [t[2] for t in sorted(tags)]
+
+    for st in fn.body:
+        if _is_docstring(st) or isinstance(st, ast.Pass):
+            continue
+        out.extend(classify(st))
+    if out.count("store") != 1 or out.count("validate") != 1:
+        raise Unrecognised("append does not store / validate exactly once")
+    return out
+
+
+# ----------------------------------------------------------------------------- entry point
 
 
 def generate(o):
@@ -45,3 +441,53 @@ def generate(o):
     text += "def subclass : List (String × String) := %s\n" % lean_list(sub, lambda p: "(%s, %s)" % (lean_str(p[0]), lean_str(p[1])))
     text += "end Gen.Validate\n"
     o.files["Validate.lean"] = text
+
+    # ---- control flow
+    schema = Src("orso/schema.py")
+    frame = Src("orso/dataframe.py")
+
+    def flow():
+        fn = _method(_cls(schema.tree, "RelationSchema"), "validate")
+        top, against, loop, data = translate_top(fn)
+        tr = LoopTranslator(loop.target.id, data)
+        rule = tr.block(list(loop.body))
+        return {"top": top, "against": against, "rule": rule, "keys": sorted(set(tr.keys))}
+
+    fl = o.item("schema.validate.flow", flow, {"top": PIN_TOP, "against": "name", "rule": PIN_RULE,
+                                                "keys": sorted([KEY_MISSING, KEY_NULL, KEY_WRONG])})
+
+    def reads():
+        s_r, c_r, hidden, s_f, c_f = reads_of(schema.tree, "RelationSchema", "validate", "FlatColumn")
+        return {"schema": s_r, "column": c_r, "hidden": hidden, "schema_fields": s_f, "column_fields": c_f}
+
+    rd = o.item("schema.validate.reads", reads, {"schema": ["columns"], "column": ["name", "nullable", "type"], "hidden": [],
+                                                 "schema_fields": ["columns"], "column_fields": ["name", "nullable", "type"]})
+
+    def steps():
+        return append_steps(_method(_cls(frame.tree, "DataFrame"), "append"))
+
+    st = o.item("dataframe.append.steps", steps, PIN_STEPS)
+    st = [s for s in st if s in STEP_NAMES]
+
+    t = HEADER + "namespace Gen.ValidateFlow\n"
+    t += "/-- how `validate` exits -/\ninductive Exit where\n  | typeError | excess | invalid | ok | other\n  deriving DecidableEq, Repr\n"
+    t += "/-- what `DataFrame.append` does, statement by statement -/\ninductive Step where\n  | validate | coerce | build | size | materialize | store | count | cursor\n  deriving DecidableEq, Repr\n"
+    t += "/-- schema.py `RelationSchema.validate`, the body of `for column in self.columns`: the error-dict keys a column is appended to -/\n"
+    t += "def columnRule (present isNone nullable typed inst : Bool) : List String :=\n  %s\n" % fl["rule"]
+    t += "/-- schema.py `RelationSchema.validate`, top level: the order of the checks and how the function exits -/\n"
+    t += "def top (notMapping excess errors : Bool) : Exit :=\n  %s\n" % fl["top"]
+    t += "/-- what the record's keys are compared with: \"name\" (column names) or \"all_names\" (names and aliases) -/\n"
+    t += "def excessAgainst : String := %s\n" % lean_str(fl["against"])
+    t += "/-- the error-dict keys used in the loop -/\ndef errorKeys : List String := %s\n" % lean_list(fl["keys"], lean_str)
+    t += "/-- dataframe.py `DataFrame.append`: its statements in source order -/\n"
+    t += "def appendSteps : List Step := %s\n" % lean_list(st, lambda s: "Step." + s)
+    t += "/-- dataclass fields of RelationSchema that `validate` reads (through properties and helper methods) -/\n"
+    t += "def schemaReads : List String := %s\n" % lean_list(rd["schema"], lean_str)
+    t += "/-- dataclass fields of a column that `validate` reads -/\n"
+    t += "def columnReads : List String := %s\n" % lean_list(rd["column"], lean_str)
+    t += "/-- state `validate` depends on that is not a declared field: cached properties, memoising decorators, undeclared attributes, writes -/\n"
+    t += "def hiddenState : List String := %s\n" % lean_list(rd["hidden"], lean_str)
+    t += "def schemaFields : List String := %s\n" % lean_list(rd["schema_fields"], lean_str)
+    t += "def columnFields : List String := %s\n" % lean_list(rd["column_fields"], lean_str)
+    t += "end Gen.ValidateFlow\n"
+    o.files["ValidateFlow.lean"] = t
